@@ -221,6 +221,18 @@ func (c CfgSpec) hosts() map[uint8]CfgNbr {
 	return out
 }
 
+// passive: does the DUT wait for this neighbour to connect?
+func (c CfgSpec) passive(host uint8) bool {
+	for _, g := range c.Groups {
+		for _, n := range g.Neighbors {
+			if n.Host == host {
+				return g.Passive == nil || *g.Passive
+			}
+		}
+	}
+	return true
+}
+
 func bp(b bool) *bool { return &b }
 
 func cloneCfg(c CfgSpec) CfgSpec {
@@ -253,7 +265,9 @@ func genC36(seed uint64) *Plan {
 	base := CfgSpec{}
 	ng := 1 + r.Intn(2)
 	for gi := 0; gi < ng; gi++ {
-		g := CfgGroup{Name: fmt.Sprintf("g%d", gi), Passive: bp(true), Hold: pick(r, []uint16{0, 90, 30}),
+		// most groups wait for the neighbour to connect; in the others the DUT dials (after its
+		// reconnect interval of 15 s) and one FSM serves all sessions of the neighbour
+		g := CfgGroup{Name: fmt.Sprintf("g%d", gi), Passive: bp(r.Chance(0.65)), Hold: pick(r, []uint16{0, 90, 30}),
 			Import: []string{pick(r, cfgPolicyNames[:4])}, Export: []string{pick(r, cfgPolicyNames[:4])}}
 		if r.Chance(0.3) {
 			g.IPv4 = &CfgAF{Recv: r.Chance(0.5), Send: r.Chance(0.5), Multipath: true, PathCount: uint8(2 + r.Intn(3))}
@@ -428,6 +442,9 @@ func (o *c36Oracle) Init(w *World) {
 			n, ok := want[p.Cfg.Addr[3]]
 			if !ok || n.Disabled {
 				continue
+			}
+			if !w.Plan.Cfgs[o.cur].passive(p.Cfg.Addr[3]) {
+				continue // the DUT dials this neighbour
 			}
 			if p.conn == nil || p.conn.ClosedByDUT() || p.conn.peerClosed {
 				p.Connect()
